@@ -262,6 +262,293 @@ def check_u2(rep, idx):
                               "N_eq = %s rows are allocated (rows missing or out of bounds)" % bad, d.file, d.line))
 
 
+# ---- U3: fit_spline re-solves the middle cumulative coefficient so that the segment product is inv(g) * g_next ------------
+
+class FGErr(Exception):
+    pass
+
+
+def iev(e, env):
+    """C integer arithmetic (division truncates) for index expressions"""
+    t = e[0]
+    if t == "num":
+        if e[1].denominator != 1:
+            raise FGErr("non-integer literal")
+        return int(e[1])
+    if t == "ref":
+        if e[1] in env:
+            return env[e[1]]
+        raise FGErr("unknown index variable %s" % e[1])
+    if t == "neg":
+        return -iev(e[1], env)
+    if t == "ctor" and len(e[2]) == 1:
+        return iev(e[2][0], env)
+    if t == "call" and len(e[2]) == 1 and str(e[1]).split("::")[-1].split("<")[0] in ("static_cast", "int", "size_t", "Index"):
+        return iev(e[2][0], env)
+    if t == "op":
+        a, b = iev(e[2], env), iev(e[3], env)
+        op = e[1]
+        if op == "+":
+            return a + b
+        if op == "-":
+            return a - b
+        if op == "*":
+            return a * b
+        if op == "/":
+            if b == 0:
+                raise FGErr("division by zero")
+            q = abs(a) // abs(b)
+            return q if (a >= 0) == (b >= 0) else -q
+        if op == "%":
+            return a - b * iev(("op", "/", e[2], e[3]), env)
+        if op in ("<", "<=", ">", ">=", "==", "!="):
+            return int({"<": a < b, "<=": a <= b, ">": a > b, ">=": a >= b, "==": a == b, "!=": a != b}[op])
+    raise FGErr("index expression %s" % A.show(e)[:40])
+
+
+def fg_reduce(w):
+    out = []
+    for x in w:
+        if out and out[-1][0] == x[0] and out[-1][1] == -x[1]:
+            out.pop()
+        else:
+            out.append(x)
+    return out
+
+
+def fg_inv(w):
+    return [(s_, -e_) for s_, e_ in reversed(w)]
+
+
+def check_u3(rep, idx):
+    rep.rule("U3", "fit_spline (K > 2): after re-solving the middle coefficient, exp(v_0) ... exp(v_{K-1}) == inverse(g) * g_next in the free group, K = 3..6", minimum=4)
+    fns = [d for d in idx if d.kind in A.FUNCS and d.pattern and d.qname.split("::")[-1] == "fit_spline" and A.body(d.node) is not None]
+    if len(fns) != 1:
+        rep.broke("U3: fit_spline not found (%d)" % len(fns))
+        return
+    d = fns[0]
+    blocks = [x for x in A.walk(A.body(d.node)) if x.get("kind") == "IfStmt" and A.ntext(A.kids(x)[0]).replace("(", "").replace(")", "") in ("K>2", "2<K", "K>=3")]
+    if len(blocks) != 1:
+        rep.broke("U3: the `if constexpr (K > 2)` interpolation fix-up was not found in fit_spline")
+        return
+    blk = A.kids(blocks[0])[1]
+    # the zip binding names of the enclosing segment loop: (i, dt, g, g_next)
+    coefs = None
+    for x in A.walk(A.body(d.node)):
+        if x.get("kind") == "VarDecl" and "cum" in (x.get("name") or "") and A.kids(x):
+            coefs = x.get("name")
+    if coefs is None:
+        rep.broke("U3: cumulative coefficient matrix not found")
+        return
+
+    def fname(e):
+        return str(e[1]).split("::")[-1].split("<")[0]
+
+    for K in (3, 4, 5, 6):
+        ienv = {"K": K}
+        genv = {}
+        subst = {}
+
+        def col_index(e):
+            # coefs.col(k) / -coefs.col(k)
+            sign = 1
+            while e[0] == "neg":
+                sign, e = -sign, e[1]
+            if e[0] == "mcall" and e[2] == "col" and e[1][0] == "ref" and e[1][1] == coefs and len(e[4]) == 1:
+                return sign, iev(e[4][0], ienv)
+            raise FGErr("tangent argument %s" % A.show(e)[:40])
+
+        def gv(e):
+            if e[0] == "ref":
+                if e[1] in genv:
+                    return list(genv[e[1]])
+                return [(e[1], 1)]
+            if e[0] == "call":
+                f = fname(e)
+                if f == "composition":
+                    out = []
+                    for a in e[2]:
+                        out += gv(a)
+                    return fg_reduce(out)
+                if f == "inverse" and len(e[2]) == 1:
+                    return fg_inv(gv(e[2][0]))
+                if f == "exp" and len(e[2]) == 1:
+                    sg, k = col_index(e[2][0])
+                    return [("E%d" % k, sg)]
+            if e[0] == "op" and e[1] == "*":
+                return fg_reduce(gv(e[2]) + gv(e[3]))
+            if e[0] == "mcall" and e[2] == "inverse" and not e[4]:
+                return fg_inv(gv(e[1]))
+            raise FGErr("group expression %s" % A.show(e)[:50])
+
+        def run(stmts, depth=0):
+            for st in stmts:
+                k = st.get("kind")
+                if k == "DeclStmt":
+                    for v in A.kids(st):
+                        if v.get("kind") != "VarDecl" or not A.kids(v):
+                            continue
+                        init = A.to_expr(A.kids(v)[-1])
+                        try:
+                            ienv[v.get("name")] = iev(init, ienv)
+                        except FGErr:
+                            genv[v.get("name")] = gv(init)
+                elif k == "ForStmt":
+                    ks = A.kids(st)
+                    run([ks[0]])
+                    var = next(v.get("name") for v in A.kids(ks[0]) if v.get("kind") == "VarDecl")
+                    inc = A.ntext(ks[3]).replace(" ", "")
+                    step = 1 if inc in ("++" + var, var + "++") else (-1 if inc in ("--" + var, var + "--") else None)
+                    if step is None:
+                        raise FGErr("loop increment %s" % inc)
+                    n = 0
+                    while iev(A.to_expr(ks[2]), ienv):
+                        body = ks[4]
+                        run(A.kids(body) if body.get("kind") == "CompoundStmt" else [body])
+                        ienv[var] += step
+                        n += 1
+                        if n > 50:
+                            raise FGErr("loop does not terminate")
+                elif k in ("BinaryOperator", "CXXOperatorCallExpr", "ExprWithCleanups"):
+                    e = A.to_expr(st)
+                    if e[0] == "op" and e[1] == "=" and e[2][0] == "ref":
+                        genv[e[2][1]] = gv(e[3])
+                    elif e[0] == "op" and e[1] == "=" and e[3][0] == "call" and fname(e[3]) == "log" and len(e[3][2]) == 1:
+                        sg, kk = col_index(e[2])
+                        w = gv(e[3][2][0])
+                        subst["E%d" % kk] = w if sg == 1 else fg_inv(w)
+                    else:
+                        raise FGErr("statement %s" % A.show(e)[:50])
+                elif k == "CompoundStmt":
+                    run(A.kids(st))
+                elif k in ("NullStmt",):
+                    pass
+                else:
+                    raise FGErr("statement kind %s" % k)
+        try:
+            run(A.kids(blk) if blk.get("kind") == "CompoundStmt" else [blk])
+            prod = []
+            for k in range(K):
+                prod += subst.get("E%d" % k, [("E%d" % k, 1)])
+            prod = fg_reduce(prod)
+        except (FGErr, pe.PEError, StopIteration) as ex:
+            rep.broke("U3: cannot interpret the interpolation fix-up of fit_spline for K=%d: %s" % (K, ex))
+            continue
+        # the enclosing loop binds (g, g_next); the target is inverse(g) * g_next in whatever names the code uses: it must be the
+        # word the fix-up started from (its first group value) -- identify it as the only word made of non-E symbols
+        target = [x for x in prod if not x[0].startswith("E")]
+        ok = prod == target and len(target) == 2 and target[0][1] == -1 and target[1][1] == 1 and target[0][0] != target[1][0]
+        show = " ".join("%s%s" % (s_, "" if e_ == 1 else "^-1") for s_, e_ in prod) or "1"
+        rep.instance("U3", "fit_spline", "K=%d" % K, ok=ok, sample={"file": fe.rel(d.file), "line": d.line, "segment_product": show, "resolved": sorted(subst)})
+        if not ok:
+            f, l = A.loc(blocks[0])
+            rep.violation(Finding("U3", "fit_spline", "K=%d" % K,
+                                  "for degree %d the product of the segment's exponentials after the fix-up is  %s  in the free group; interpolation of the "
+                                  "next data point from the left needs exactly inverse(g) * g_next (E_k = exp(v_k); non-commuting factors were removed in the wrong order "
+                                  "or on the wrong side)" % (K, show), f, l))
+
+
+# ---- U4: reparameterize_spline starts at min(start_vel^2, v2max(0)) and the first segment's initial slope is its square root ------
+
+def check_u4(rep, idx):
+    rep.rule("U4", "reparameterize_spline: initial squared speed is min(start_vel^2, v2max(0)); segment slope at its start is sqrt of the current squared speed", minimum=2)
+    fns = [d for d in idx if d.kind in A.FUNCS and d.pattern and d.qname.split("::")[-1] == "reparameterize_spline" and A.body(d.node) is not None]
+    if len(fns) != 1:
+        rep.broke("U4: reparameterize_spline not found (%d)" % len(fns))
+        return
+    d = fns[0]
+    b = A.body(d.node)
+    ps = [p.get("name") for p in A.params(d.node)]
+    if "start_vel" not in ps:
+        rep.broke("U4: parameter start_vel not found")
+        return
+    # the forward loop constructs Spline<2,double>{dt, {c1, c2}, si}; find it and the variables feeding c1
+    ctor = None
+    for x in A.walk(b):
+        if x.get("kind") in ("CXXTemporaryObjectExpr", "CXXUnresolvedConstructExpr", "InitListExpr", "CXXFunctionalCastExpr", "CXXConstructExpr") and A.ntext(x).startswith("Spline<2,double>{"):
+            if len(A.ntext(x)) > 30:
+                ctor = x
+                break
+    if ctor is None:
+        rep.broke("U4: construction of the reparameterisation segments not found")
+        return
+    e = A.to_expr(ctor)
+    items = e[1] if e[0] == "init" else (e[2] if e[0] in ("ctor", "call") else None)
+    if not items or len(items) != 3:
+        rep.broke("U4: segment constructor has an unexpected shape: %s" % A.show(e)[:80])
+        return
+    dt_e, coef_e, s_e = items
+    citems = coef_e[1] if coef_e[0] == "init" else (coef_e[2] if coef_e[0] in ("ctor", "call") else None)
+    if not citems or len(citems) != 2:
+        rep.broke("U4: segment coefficients have an unexpected shape")
+        return
+    locs = {}
+    for x in A.walk(b):
+        if x.get("kind") == "VarDecl" and A.kids(x) and x.get("name"):
+            locs.setdefault(x.get("name"), []).append(A.to_expr(A.kids(x)[-1]))
+    # slope of a quadratic cumulative Bezier segment of duration dt with first coefficient c1 at its start: 2 c1 / dt
+    if dt_e[0] != "ref":
+        rep.broke("U4: segment duration is not a variable")
+        return
+    speed_vars = sorted(A.refs(citems[0]) - {dt_e[1]})
+    ok_slope = False
+    vi = None
+    if len(speed_vars) == 1:
+        vi = speed_vars[0]
+        try:
+            ok_slope = all(2 * pe.ev(citems[0], {dt_e[1]: D_, vi: V_}) / D_ == V_ for D_, V_ in ((3, 5), (7, 2), (Fraction(1, 3), 11)))
+        except pe.PEError:
+            ok_slope = False
+    # vi = sqrt(vi2), vi2 = v2m
+    root_of = None
+    if vi and len(locs.get(vi, [])) == 1:
+        ve = locs[vi][0]
+        if ve[0] == "call" and str(ve[1]).split("::")[-1] == "sqrt" and len(ve[2]) == 1 and ve[2][0][0] == "ref":
+            root_of = ve[2][0][1]
+    cur = None
+    if root_of and len(locs.get(root_of, [])) == 1 and locs[root_of][0][0] == "ref":
+        cur = locs[root_of][0][1]
+    ok_chain = ok_slope and cur is not None
+    rep.instance("U4", "reparameterize_spline", "initial slope", ok=ok_chain, sample={"file": fe.rel(d.file), "line": d.line, "speed": vi, "squared": root_of, "state": cur})
+    if not ok_chain:
+        f, l = A.loc(ctor)
+        if vi and not ok_slope:
+            rep.violation(Finding("U4", "reparameterize_spline", "initial slope", "the first coefficient %s of a segment does not give it the initial slope %s (2 c1 / dt)" % (A.show(citems[0])[:40], vi), f, l))
+        else:
+            rep.broke("U4: cannot trace the segment's initial slope back to the squared-speed state (speed=%s, squared=%s, state=%s)" % (vi, root_of, cur))
+        return
+    inits = locs.get(cur, [])
+    if len(inits) != 1:
+        rep.broke("U4: squared-speed state %s has %d initialisers" % (cur, len(inits)))
+        return
+    init = inits[0]
+    # identity test: init(start_vel = s, v2max(0) = m) == min(s^2, m)
+    others = sorted(A.refs(init) - {"start_vel"})
+    ok_init = False
+    try:
+        vals = []
+        for s_, m_ in ((Fraction(1, 2), 9), (3, 100), (Fraction(1, 10), 5), (4, 2), (Fraction(1, 3), Fraction(1, 100))):
+            env = {"start_vel": s_}
+            key = None
+            for y in A.walk(b):
+                pass
+            # v2max(0) appears as a call / subscript of the bound table at index 0: bind every such spelling
+            for spelling in ("v2max(0)", "v2max[0]", "v2max.coeff(0)"):
+                env[spelling] = m_
+            vals.append(pe.ev(init, env) == min(s_ * s_, m_))
+        ok_init = all(vals)
+    except pe.PEError as ex:
+        rep.broke("U4: initial squared speed %s is outside the evaluator: %s" % (A.show(init)[:50], ex))
+        return
+    rep.instance("U4", "reparameterize_spline", "initial squared speed", ok=ok_init, sample={"init": A.show(init)[:80]})
+    if not ok_init:
+        x = next(x for x in A.walk(b) if x.get("kind") == "VarDecl" and x.get("name") == cur)
+        f, l = A.loc(x)
+        rep.violation(Finding("U4", "reparameterize_spline", "initial squared speed",
+                              "the squared-speed state starts at %s; with s'(0) = sqrt of it, the requested bound s'(0) <= start_vel needs min(start_vel^2, v2max(0)) "
+                              "(e.g. start_vel = 1/2 gives s'(0) = %s)" % (A.show(init)[:60], "sqrt(1/2)" if pe.ev(init, {"start_vel": Fraction(1, 2), "v2max(0)": 9, "v2max[0]": 9}) == Fraction(1, 2) else "a different value"), f, l))
+
+
 def check(rep, tier, replay=None):
     rep.explanations.append(
         "C14 (thin): U1 exhaustiveness and self-consistency of the six Dubins candidates and the realisation of segments as unit-speed "
@@ -269,7 +556,9 @@ def check(rep, tier, replay=None):
         "(symbolic trip counts).  Interpolation/boundary accuracy, minimality as geometry, fit_bspline and reparameterize_spline are numerical.")
     rep.trusted.update(["clang++-16 front end", "lib/pe.py"])
     rep.assumptions.append("accuracy of the fitted coefficients (incl. the derivative-minimising KKT system) is NOT decided")
-    d = fe.ast_dumps(["dubins", "fit_spline_1d"])
-    rep.unit("umbrella TU filtered dubins / fit_spline_1d")
+    d = fe.ast_dumps(["dubins", "fit_spline", "reparameterize_spline"])
+    rep.unit("umbrella TU filtered dubins / fit_spline / reparameterize_spline")
     check_u1(rep, A.index(d["dubins"]))
-    check_u2(rep, A.index(d["fit_spline_1d"]))
+    check_u2(rep, A.index(d["fit_spline"]))
+    check_u3(rep, A.index(d["fit_spline"]))
+    check_u4(rep, A.index(d["reparameterize_spline"]))
